@@ -120,6 +120,14 @@ func c01Levels(tier string) []core.Level {
 			emit(core.Case{Fam: "str", Src: s})
 		}
 	}})
+	lv = append(lv, core.Level{Name: "histories in one process: every corpus template respelled with two blanks / a tab / a line break inside its multi-word operators and wide gaps elsewhere, parsed whole and then prefix by prefix (a memo keyed by a bounded look-ahead would carry the whole template's answer into its prefixes)", Gen: func(emit func(core.Case)) {
+		for _, it := range corpus() {
+			for _, gap := range []string{"  ", "\t", "\n", "   \n "} {
+				src := strings.ReplaceAll(it.Src, " ", gap)
+				emit(core.Case{Fam: "prefixes", Src: src})
+			}
+		}
+	}})
 	for n := 1; n <= n1; n++ {
 		n := n
 		lv = append(lv, core.Level{Name: "fragments^" + itoa(n), Gen: func(emit func(core.Case)) { genStrings(c01Frags, n, "str", emit) }})
@@ -275,6 +283,19 @@ func c01Run(c core.Case) core.Result {
 	}
 	if (err == nil) != (err3 == nil) {
 		return core.Violation("verdict-differs", "parse.Parse and Parse of the inline template disagree on "+q(c.Src)+": "+errStr(err)+" vs "+errStr(err3))
+	}
+	// history: the same input parsed a second time on the same environments gives the same verdict (and returns)
+	_, err4, pan4 := tryEnvParse(env, "t.html")
+	if pan4 != "" || (err4 == nil) != (err2 == nil) {
+		return core.Violation("verdict-differs", "Env.Parse of "+q(c.Src)+" a second time on the same environment: "+errStr(err4)+" "+pan4+" (the first time: "+errStr(err2)+")")
+	}
+	if c.Fam == "prefixes" {
+		// ... and, in this process, every prefix of the input after the whole input
+		for i := len(c.Src) - 1; i > 0; i-- {
+			if _, _, pp := tryParse(c.Src[:i]); pp != "" {
+				return core.Violation("panic", "parse.Parse("+q(c.Src[:i])+") after "+q(c.Src)+" panicked: "+pp)
+			}
+		}
 	}
 	out := "ok"
 	if err != nil {
